@@ -36,6 +36,7 @@ type DkgRow struct {
 	Set     int    `json:"set"`
 	NShares int    `json:"nshares"` // len(PublicKeyShares)
 	T       int    `json:"t"`
+	Keyper  int    `json:"keyper,omitempty"` // whose DKG result it is (index and secret key share)
 }
 type KeyRow struct {
 	Eon   int64  `json:"eon"`
